@@ -54,7 +54,10 @@ says "report and/or safe details" — and `V06` (an empty stack trace yields a
 `".":0` source location) led to the discovery of the genuine defect F19 (§7);
 after its repair the change is behaviourally neutral on `/repo`'s HEAD (it was
 confirmed, and caught by C15 `one-line-source/presence`, against the commit
-before the fix). Nothing from `/verif` was ever
+before the fix). A tenth round of twelve (`R01-r10` … `R12-r10`) asked for
+*refactoring-style* changes of 10–40 lines (recursion ↔ loop, a standard-library
+helper instead of hand-written code, merging near-duplicates, hoisting, caching,
+simplified conditions) that read as behaviour-preserving. Nothing from `/verif` was ever
 shown. Each was **confirmed independently** before being kept
 (`tools/confirm_mutant.sh`): the patch applies to the clean tree, the library
 builds with and without the `verif` tag, the demonstration passes without the
@@ -73,10 +76,11 @@ suite is thin.
 Outcome: **every one of the {n} changes is reported as a VIOLATION by the quick
 tier of the check of the property it was written against** (seed 1). About a
 quarter of them were *missed* by the version of the monitor that existed when
-they arrived (round 1: 3, round 2: 8, round 3: 7, round 4: 2, round 5: 3, round 6: 4, round 7: 7, round 8: 4, round 9: 6, plus one
+they arrived (round 1: 3, round 2: 8, round 3: 7, round 4: 2, round 5: 3, round 6: 4, round 7: 7, round 8: 4, round 9: 6, round 10: 2, plus two
 regression found by re-running every stored change against its own check after
-the harness had changed — `tools/diag.sh`: `K07-r5` had been caught through a
-coincidence of the generator) and led to the
+the harness had changed — `tools/diag.sh`: `K07-r5` and `C20-r2` had been caught
+through coincidences of the generator; the tool also prints how many violation
+observations each catch rests on) and led to the
 strengthenings listed below the table; none led to loosening a check.
 
 | seeded | property | change | needs, in order to manifest | caught by (signatures) |
@@ -108,6 +112,8 @@ of the API.
   `payloads-dropped` (every structured payload except nested `EncodedError`s
   removed, wire messages and reportable strings kept; `V12-r9`); the kind
   `gstatusf`, `grpc/status.Errorf` with an unsafe argument (`V10-r9`).
+* **C02** — the kind `keymarkwrap`, a third-party wrapper with a type-key
+  extension (`ErrorKeyMarker`) (`R01-r10`).
 * **C04** — the unknowing-process simulation got a second mode (`NoProto`): the
   type URLs of the payloads of the forgotten types are made unresolvable on the
   way in and restored on the way out, as for a binary built without the package
@@ -155,7 +161,9 @@ of the API.
 * **C09** — `*net.OpError` with only a local address and with no address
   (`operrsrc`, `operrnone`) (`T11-r7`); the kind `oldfmtelide`, a foreign wrapper
   with an old-style `Format` method whose `Error()` replaces the cause's text
-  (`V02-r9`).
+  (`V02-r9`); the kind `safemsgwrap`, a third-party `redact.SafeMessager` wrapper
+  that overrides its cause's message — never the outermost layer of a tree or of
+  a hidden error, where the redact package itself short-cuts it (`R02-r10`).
 * **C14** — a leaf and a *wrapper* type with their own `As` methods; the wrapper
   declines every target but one, and the search must go on below it (`C14-r3`).
   A value-typed, non-comparable third-party wrapper (`ncwrap`), and
@@ -193,7 +201,9 @@ of the API.
   `GetTelemetryKeys` / `GetAllHints` / `GetAllDetails` / `GetAllIssueLinks` are
   scribbled on and the error observed again (`K02-r5`); third-party leaf and
   wrapper types that implement `ErrorHinter` / `ErrorDetailer` themselves
-  (`hdleaf`, `hdwrap`, registered so that they survive the network) (`G03-r6`).
+  (`hdleaf`, `hdwrap`, registered so that they survive the network) (`G03-r6`);
+  one case in ten has two gRPC code layers, the outer one often `Unknown`, the
+  "nothing attached" default; C20 does the same (`C20-r2`, regression).
 
 Independently of the seeded changes, `tools/coverage.sh` measures which statements
 of the library the monitors' workloads execute (the harness built with
